@@ -108,7 +108,10 @@ def insertion_sweep(template, fragments):
 
 def depth_cases(d):
     """nesting depth d of each opener in several contexts"""
-    for op, cl in [('{', '}'), ('(', ')'), ('[', ']'), ('f(', ')'), ('calc(', ')'), ('@media x{', '}'), (':not(', ')')]:
+    # (`@media x{` is dropped as a whole - unknown media type - so real nesting needs a known one)
+    for op, cl in [('{', '}'), ('(', ')'), ('[', ']'), ('f(', ')'), ('calc(', ')'), ('@media x{', '}'), (':not(', ')'),
+                   ('@media print{', '}'), ('@media screen and (min-width:1px){c{d:e}', 'f{g:h}}'), ('@page{', '}'),
+                   ('rgb(', ')'), ('var(a,', ')'), ('url(', ')'), ('"', '"')]:
         yield 'a{b:' + op * d + '1' + cl * d + '}'
         yield 'a{b:' + op * d                       # unclosed
         yield op * d + 'a{b:c}' + cl * d
@@ -235,3 +238,27 @@ def extreme_cases():
         k = slot.count('%s')
         for u in BAD_URLS:
             yield slot % ((u,) * k)
+
+
+FUNCTION_TEMPLATES = [
+    'a{color:rgba(1,2,3,.5);background:hsla(120,50%,50%,.3) rgb(1,2,3) hsl(1,2%,3%)}',
+    'a{b:var(x) calc(1px + 2px) attr(y) counter(z) counters(z,".") url(u) rect(1px,2px,3px,4px) expression(1) f(g)}',
+    '@import url(x.css) screen;@namespace p url(u);@media screen and (color){a:not(b):nth-child(2n+1):lang(en){c:d}}',
+    '@variables{v:red}a{color:var(v);content:"x" attr(t) counter(c,decimal);width:-moz-calc(1px)}',
+    '@font-face{font-family:x;src:local(y),url(z.woff) format("woff");unicode-range:U+0-7F}',
+    '@page :first{margin:1px;@top-left{content:counter(page)}}a{b:c !important}',
+]
+
+
+def escaped_letter_sweep(template):
+    """every letter of every name written with a simple escape (non-hex letters), as a hex escape with and without its
+    terminator, and in the other letter case: names are compared after unescaping and case folding in many places, and
+    each of them is a place that can forget it"""
+    for i, ch in enumerate(template):
+        if not (ch.isalpha() and ch.isascii()):
+            continue
+        if ch.lower() not in 'abcdef':
+            yield template[:i] + '\\' + ch + template[i + 1:]
+        yield template[:i] + '\\%x ' % ord(ch) + template[i + 1:]
+        yield template[:i] + '\\%06x' % ord(ch) + template[i + 1:]
+        yield template[:i] + ch.swapcase() + template[i + 1:]
